@@ -72,6 +72,37 @@ def make_subclass(rnd, base, name, module):
     return s
 
 
+def make_collision(rnd, victim, k, name):
+    """An unrelated class one of whose STATE IDS equals the name of a callback / attribute the victim
+    class defines on the machine itself (names are only unique within a class)."""
+    p = gen.gen_program(rnd, k, name=name)
+    names = sorted({c.split(".", 1)[1] for c in victim["cbs"] if c.startswith("machine.")})
+    names = [n for n in names if n not in ("on_enter_state", "on_exit_state", "before_transition",
+                                           "on_transition", "after_transition")]
+    if not names:
+        return p
+    new_id = rnd.choice(names)
+    old = rnd.choice([s_["id"] for s_ in p["states"]])
+    for s_ in p["states"]:
+        if s_["id"] == old:
+            s_["id"] = new_id
+    for t in p["trans"]:
+        if t["src"] == old:
+            t["src"] = new_id
+        if t["dst"] == old:
+            t["dst"] = new_id
+    for c in [c for c in p["cbs"] if c.split(".", 1)[1] in (f"on_enter_{old}", f"on_exit_{old}")]:
+        del p["cbs"][c]
+    # the neighbour must not itself define a callback with the colliding name
+    for c in [c for c in p["cbs"] if c.split(".", 1)[1] == new_id]:
+        del p["cbs"][c]
+    from ..shrink import prune_names
+
+    prune_names(p)
+    p["collides_with"] = new_id
+    return p
+
+
 def project(sc, res, tag):
     """What instance ``tag`` did and saw: operation outcomes and callback invocations, in order."""
     out = []
@@ -119,7 +150,8 @@ class C16(Campaign):
                  "event histories of 2-4 co-resident programs vs. the same instance run solo; reference interpreter")
     quick_runs = 2000
     thorough_runs = 30000
-    fault_kinds = ["neighbour-definition@op (unrelated class)", "neighbour-definition@op (look-alike class: same class / "
+    fault_kinds = ["neighbour-definition@op (unrelated class)", "neighbour-definition@op (unrelated class whose state id "
+                   "equals a callback name of the victim class)", "neighbour-definition@op (look-alike class: same class / "
                    "method / variable names)", "neighbour-definition@op (subclass adding transitions from inherited states)",
                    "second instance of the same class interleaved", "neighbour driven between two events"]
     rule = ("one run = 2-4 programs in one process (unrelated, look-alike in another module, subclass extending "
@@ -145,8 +177,14 @@ class C16(Campaign):
         kinds = []
         for i in range(rnd.randint(1, 3)):
             kind = rnd.choice(["unrelated", "lookalike", "lookalike", "lookalike", "subclass", "same_class",
-                               "same_class", "unrelated"])
-            if kind == "unrelated":
+                               "same_class", "collision", "collision"])
+            if kind == "collision":
+                programs.append(make_collision(rnd, base, k, f"X{i}"))
+                # ... and another instance of the victim class built at some later point
+                programs.append(None)
+                kinds.append(kind)
+                kind = "same_class"
+            elif kind == "unrelated":
                 p = gen.gen_program(rnd, k, name=f"U{i}")
                 programs.append(p)
             elif kind == "lookalike":
@@ -159,7 +197,7 @@ class C16(Campaign):
             kinds.append(kind)
         insts = []
         streams = []
-        tags = "ABCD"
+        tags = "ABCDEFGH"
         real = []
         for i, p in enumerate(programs):
             if p is None:
